@@ -30,6 +30,7 @@ struct Legs {
     sa2: SwapAccounts,
     v2: bool,
     auth: Pubkey,
+    holder: Pubkey,
 }
 
 fn legs(c: &Call, pre: &Ledger) -> Option<Legs> {
@@ -45,10 +46,12 @@ fn legs(c: &Call, pre: &Ledger) -> Option<Legs> {
     let ta1 = [c.a("tick_array_one_0"), c.a("tick_array_one_1"), c.a("tick_array_one_2")];
     let ta2 = [c.a("tick_array_two_0"), c.a("tick_array_two_1"), c.a("tick_array_two_2")];
     // the trader's token accounts: v1 names all four; v2 names input and output only
+    // (a route may be signed by a delegate of the trader: the accounts are the holder's)
+    let holder = if v2 { pre.data(&c.a("token_owner_account_input")).and_then(decode::token_account).map(|t| t.owner).unwrap_or(auth) } else { auth };
     let find_owned = |mint: &Pubkey| -> Pubkey {
-        // any token account of `auth` for this mint (deterministic: first in key order)
+        // any token account of the holder for this mint (deterministic: first in key order)
         for (k, acc) in pre.accts.iter() {
-            if (acc.owner == ix::tok() || acc.owner == ix::tok22()) && acc.data.len() >= 165 && acc.data[..32] == mint.to_bytes() && acc.data[32..64] == auth.to_bytes() {
+            if (acc.owner == ix::tok() || acc.owner == ix::tok22()) && acc.data.len() >= 165 && acc.data[..32] == mint.to_bytes() && acc.data[32..64] == holder.to_bytes() {
                 return *k;
             }
         }
@@ -69,7 +72,27 @@ fn legs(c: &Call, pre: &Ledger) -> Option<Legs> {
         s2,
         v2,
         auth,
+        holder,
     })
+}
+
+/// on a copy: the signer of the route is given an allowance on all of the holder's accounts the single swaps touch (the
+/// two-hop itself needs one on the input account only, the intermediate token never passing through the trader)
+fn allow_delegate(f: &mut Ledger, lg: &Legs) {
+    if lg.holder == lg.auth {
+        return;
+    }
+    for k in [lg.sa1.owner_a, lg.sa1.owner_b, lg.sa2.owner_a, lg.sa2.owner_b] {
+        if let Some(a) = f.accts.get_mut(&k) {
+            if a.data.len() >= 165 {
+                let mut d = (*a.data).clone();
+                d[72..76].copy_from_slice(&1u32.to_le_bytes());
+                d[76..108].copy_from_slice(lg.auth.as_ref());
+                d[121..129].copy_from_slice(&u64::MAX.to_le_bytes());
+                a.data = std::rc::Rc::new(d);
+            }
+        }
+    }
 }
 
 fn run(l: &mut Ledger, ixn: rt::Ix) -> TxOutcome {
@@ -199,6 +222,7 @@ impl C17 {
                 let (u2_in, u2_out, v2_in) = if a.a_to_b_two { (lg.sa2.owner_a, lg.sa2.owner_b, lg.s2.vault_a) } else { (lg.sa2.owner_b, lg.sa2.owner_a, lg.s2.vault_b) };
                 if [u1_in, u1_out, u2_in, u2_out].iter().all(|k| *k != Pubkey::default()) && u1_in != u2_out {
                     let mut f = pre.clone();
+                    allow_delegate(&mut f, &lg);
                     for k in [u1_in, u2_in] {
                         fund(&mut f, &k);
                     }
@@ -270,6 +294,7 @@ impl C17 {
                         continue; // not every amount can arrive exactly (fee plateaus)
                     }
                     let mut f = pre.clone();
+                    allow_delegate(&mut f, &lg);
                     // the trader holds enough of the input token on the copy
                     if let Some(acc) = f.accts.get_mut(&user_in) {
                         let mut d = (*acc.data).clone();
@@ -304,6 +329,7 @@ impl C17 {
         }
         // fork B: the two legs as single swaps
         let mut fb = pre.clone();
+        allow_delegate(&mut fb, &lg);
         let in_acct = if a.a_to_b_one { lg.sa1.owner_a } else { lg.sa1.owner_b };
         let mid_acct_1 = if a.a_to_b_one { lg.sa1.owner_b } else { lg.sa1.owner_a };
         let mid_acct_2 = if a.a_to_b_two { lg.sa2.owner_a } else { lg.sa2.owner_b };
@@ -449,7 +475,7 @@ impl C17 {
                 let legit = mid_out != mid_in || thr_fail;
                 if legit {
                     cov.probe("two_hop_rejected_for_listed_reason");
-                } else if matches!(two_hop_code, Some(c) if (6000..6100).contains(&c)) {
+                } else if matches!(two_hop_code, Some(c) if (6000..6100).contains(&c) || (2000..3100).contains(&c)) {
                     // (any refusal of the program's own - a threshold, a mismatch, a closed trade gate, a tick-array sequence -
                     // needs a reason that the two single swaps would have met as well)
                     out.push(viol("rejected_without_reason", idx, format!("two-hop failed with {:?} but both legs succeed alone with matching intermediate amount {} and the threshold {} is met (paid {}, got {})", two_hop_code, mid_out, a.threshold, paid, got)));
